@@ -714,9 +714,22 @@ def real_points(rng, D, n):
 
 
 def gen_search(rng):
-  kind = rng.choices(["restrict", "near", "sampler", "sampler_cons", "lhs", "grid", "direct", "cheby", "cheby_bad"],
-                     weights=[30, 12, 12, 8, 8, 5, 8, 10, 7])[0]
+  kind = rng.choices(["restrict", "near", "sampler", "sampler_cons", "lhs", "grid", "direct", "cheby", "cheby_bad", "fixed_cons"],
+                     weights=[30, 12, 12, 8, 8, 5, 8, 10, 7, 5])[0]
   D = real_domain(rng)
+  if kind == "fixed_cons":
+    # a fixed-coordinate wrapper asked to fix SEVERAL coordinates of a constrained domain, a constrained one among them in any position of the
+    # dict: it must either refuse (the library asserts that fixed coordinates are unconstrained) or still return points that satisfy everything
+    while not D["cons"] or len(D["bounds"]) < 2:
+      D = real_domain(rng)
+    dim = len(D["bounds"])
+    ks = rng.sample(range(dim), rng.randint(2, min(3, dim)))
+    con_idx = [j for j in range(dim) if any(w[j] != 0 for w, _ in D["cons"])]
+    if con_idx and not any(k in con_idx for k in ks):
+      ks[rng.randrange(len(ks))] = rng.choice(con_idx)
+    ks = list(dict.fromkeys(ks))
+    fx = [[k, D["bounds"][k][0] + (D["bounds"][k][1] - D["bounds"][k][0]) * rng.choice([0.0, 0.25, 0.5, 1.0, rng.random()])] for k in ks]
+    return kind, dict(bounds=D["bounds"], cons=D["cons"], seed=rng.randrange(2**31), fixed=fx, n=rng.randint(1, 8), point=D["q"], std=0.3 * D["scale"])
   inp = dict(bounds=D["bounds"], cons=D["cons"], seed=rng.randrange(2**31))
   free = [j for j in range(len(D["bounds"])) if all(w[j] == 0 for w, _ in D["cons"])]
   fixed = []
@@ -899,6 +912,20 @@ def _oracle(kind, inp, dm, smp, geo, bounds, cons):
     return _check_points(kind, inp, out, n, bounds, cons)
   d = make_domain(bounds, cons)
   fixed = [(int(k), float(v)) for k, v in inp.get("fixed", [])]
+  if kind == "fixed_cons":
+    try:
+      w = wrap_fixed(d, fixed)
+    except AssertionError:
+      return None                                   # refused: nothing is returned that could leave the region
+    state = numpy.random.get_state()
+    numpy.random.seed(inp["seed"] % (2 ** 32))
+    try:
+      d.set_quasi_random_sampler_opts(dict(sampler="uniform"))
+      r = _check_points(kind, inp, w.generate_quasi_random_points_in_domain(inp["n"]), inp["n"], bounds, cons, fixed)
+      r = r or _check_points(kind, inp, w.generate_random_points_near_point(inp["n"], numpy.array(inp["point"], dtype=float), inp["std"]), inp["n"], bounds, cons, fixed)
+    finally:
+      numpy.random.set_state(state)
+    return r
   w = wrap_fixed(d, fixed)
   if kind == "sampler":
     d.set_quasi_random_sampler_opts(dict(inp["opts"]))
